@@ -85,7 +85,8 @@ def run(tier, seed):
     ser_cmds, ser_meta = [], []
     for t in trees:
         G = scopes.flatten(t)["nodes"]
-        for _ in range(2 if tier == "quick" else 6):
+        inhabited = pyavro.heights(G)[0] < 10 ** 9        # a type such as R {next: [R]} has no finite value
+        for _ in range((2 if tier == "quick" else 6) if inhabited else 0):
             v = pyavro.random_value(rng, G, 1, depth=3, size=2)
             pres = codec.canon_pres(G, 1, v, rng.choice(["named", "rust"]))
             ser_cmds.append({"op": "so_ser", "id": len(ser_cmds), "schema": {"nodes": G}, "pres": pres, "via_writer": rng.random() < 0.5})
